@@ -29,31 +29,31 @@ theorem codeAt_snoc {code : Code} {off : Nat} {frag : Code} {x : CInstr × Pos}
     simp
 
 /-- the run from `σ` reaches address `pc` in a state that represents `s`, with the stacks as they were -/
-def Reach (code : Code) (sc : Scope) (below : List CtxState) (σ : Vm) (s : St) (pc : Nat) : Prop :=
-  ∃ τ, Steps code σ τ ∧ τ.pc = pc ∧ Rel sc [] below s τ ∧ SameStacks σ τ
+def Reach (W : World) (sc : Scope) (below : List CtxState) (σ : Vm) (s : St) (pc : Nat) : Prop :=
+  ∃ τ, Steps W.code σ τ ∧ τ.pc = pc ∧ Rel W sc [] below s τ ∧ SameStacks σ τ
 
-theorem Reach.start {code : Code} {sc : Scope} {below : List CtxState} {σ : Vm} {s : St} (hr : Rel sc [] below s σ) :
-    Reach code sc below σ s σ.pc :=
+theorem Reach.start {W : World} {sc : Scope} {below : List CtxState} {σ : Vm} {s : St} (hr : Rel W sc [] below s σ) :
+    Reach W sc below σ s σ.pc :=
   ⟨σ, Steps.refl σ, rfl, hr, SameStacks.refl σ⟩
 
-theorem Reach.label {code : Code} {sc : Scope} {below : List CtxState} {σ : Vm} {s : St} {a : Nat} {l : String} {p : Pos}
-    (h : Reach code sc below σ s a) (hl : code[a]? = some (CInstr.label l, p)) : Reach code sc below σ s (a + 1) := by
+theorem Reach.label {W : World} {sc : Scope} {below : List CtxState} {σ : Vm} {s : St} {a : Nat} {l : String} {p : Pos}
+    (h : Reach W sc below σ s a) (hl : W.code[a]? = some (CInstr.label l, p)) : Reach W sc below σ s (a + 1) := by
   obtain ⟨τ, st, hp, hr, hss⟩ := h
   subst hp
-  have s1 : Vm.step code τ = .next (Vm.advance τ) := by simp only [Vm.step, hl]
+  have s1 : Vm.step W.code τ = .next (Vm.advance τ) := by simp only [Vm.step, hl]
   exact ⟨Vm.advance τ, st.trans (Steps.one s1), rfl, hr.advance, hss.trans ⟨rfl, rfl, rfl, rfl, rfl, rfl, id⟩⟩
 
-theorem Reach.jump {code : Code} {sc : Scope} {below : List CtxState} {σ : Vm} {s : St} {a t : Nat} {p : Pos}
-    (h : Reach code sc below σ s a) (hl : code[a]? = some (CInstr.jump t, p)) : Reach code sc below σ s t := by
+theorem Reach.jump {W : World} {sc : Scope} {below : List CtxState} {σ : Vm} {s : St} {a t : Nat} {p : Pos}
+    (h : Reach W sc below σ s a) (hl : W.code[a]? = some (CInstr.jump t, p)) : Reach W sc below σ s t := by
   obtain ⟨τ, st, hp, hr, hss⟩ := h
   subst hp
-  have s1 : Vm.step code τ = .next { τ with pc := t } := by simp only [Vm.step, hl]
+  have s1 : Vm.step W.code τ = .next { τ with pc := t } := by simp only [Vm.step, hl]
   exact ⟨{ τ with pc := t }, st.trans (Steps.one s1), rfl, hr.setPc t, hss.trans ⟨rfl, rfl, rfl, rfl, rfl, rfl, id⟩⟩
 
 /-- an outcome other than `normal` does not mention the statement's end address -/
-theorem StmtPost.abnormal {code : Code} {sc : Scope} {below : List CtxState} {fd sd n off n' off' : Nat} {σ : Vm}
-    {s' : St} {o : Outcome} (ho : o ≠ .normal) (h : StmtPost code sc below fd sd n off σ (s', o)) :
-    StmtPost code sc below fd sd n' off' σ (s', o) := by
+theorem StmtPost.abnormal {W : World} {sc : Scope} {below : List CtxState} {fd sd n off n' off' : Nat} {σ : Vm}
+    {s' : St} {o : Outcome} (ho : o ≠ .normal) (h : StmtPost W sc below fd sd n off σ (s', o)) :
+    StmtPost W sc below fd sd n' off' σ (s', o) := by
   cases o with
   | normal => exact absurd rfl ho
   | exited => exact h
@@ -66,13 +66,13 @@ theorem StmtPost.abnormal {code : Code} {sc : Scope} {below : List CtxState} {fd
 /-- `<cond>; JumpIfFalse t` from a reached address: an evaluation that ends the run ends the statement (whatever the
 statement), truth falls through, falsity lands on `t` -/
 theorem Reach.cond {W : World} {sc : Scope} {below : List CtxState} {σ : Vm} {s : St} {a f : Nat}
-    (h : Reach W.code sc below σ s a) (ih : IHle W f) (c : Proc.Expr) (t : Nat) (p : Pos)
+    (h : Reach W sc below σ s a) (ih : IHle W f) (c : Proc.Expr) (t : Nat) (p : Pos)
     (hc : CodeAt W.code a (compileExpr W.lay a c ++ [(CInstr.jumpIfFalse t, p)]))
     (hw : EWf W.sg sc.slots c) (hn : c.ty ≠ .str) (s1 : St) (rv : Except Outcome Bool)
     (he : Proc.Ref.evalCond W.P f c s = (s1, rv)) :
-    (∀ o, rv = .error o → ∀ (fd sd n off : Nat), StmtPost W.code sc below fd sd n off σ (s1, o)) ∧
-    (rv = .ok true → Reach W.code sc below σ s1 (a + sizeExpr c + 1)) ∧
-    (rv = .ok false → Reach W.code sc below σ s1 t) := by
+    (∀ o, rv = .error o → ∀ (fd sd n off : Nat), StmtPost W sc below fd sd n off σ (s1, o)) ∧
+    (rv = .ok true → Reach W sc below σ s1 (a + sizeExpr c + 1)) ∧
+    (rv = .ok false → Reach W sc below σ s1 t) := by
   obtain ⟨τ, st, hp, hr, hss⟩ := h
   have hcond := cond_correct' W f ih sc c t p a [] below s τ hc hp hr hw hn
   rw [he] at hcond
@@ -92,11 +92,11 @@ theorem Reach.cond {W : World} {sc : Scope} {below : List CtxState} {σ : Vm} {s
 /-- a sub-statement from a reached address: ending normally it reaches the address after it; any other outcome is the
 outcome of the whole statement -/
 theorem Reach.stmt {W : World} {sc : Scope} {below : List CtxState} {σ : Vm} {s : St} {a f fd sd : Nat}
-    (h : Reach W.code sc below σ s a) (ih : StmtIH W f) (body : SStmt) (sfx : String)
+    (h : Reach W sc below σ s a) (ih : StmtIH W f) (body : SStmt) (sfx : String)
     (hc : CodeAt W.code a (compileStmt W.lay sfx fd sd a body)) (hw : Wf W.sg sc body) (ha : ActInv sc fd sd σ)
     (s' : St) (o : Outcome) (he : Proc.Ref.exec W.P f (desugar body) s = (s', o)) :
-    (o = .normal → Reach W.code sc below σ s' (a + sizeStmt fd sd body)) ∧
-    (o ≠ .normal → ∀ (n off : Nat), StmtPost W.code sc below fd sd n off σ (s', o)) := by
+    (o = .normal → Reach W sc below σ s' (a + sizeStmt fd sd body)) ∧
+    (o ≠ .normal → ∀ (n off : Nat), StmtPost W sc below fd sd n off σ (s', o)) := by
   obtain ⟨τ, st, hp, hr, hss⟩ := h
   have hb := ih sc body sfx fd sd a below s τ hc hp hr hw (ha.of_same hss)
   rw [he] at hb
@@ -109,14 +109,14 @@ theorem Reach.stmt {W : World} {sc : Scope} {below : List CtxState} {σ : Vm} {s
     exact StmtPost.abnormal ho (StmtPost.of_steps st hss hb)
 
 /-- reaching the end address is ending normally -/
-theorem Reach.finish {code : Code} {sc : Scope} {below : List CtxState} {σ : Vm} {s' : St} {fd sd n off : Nat}
-    (h : Reach code sc below σ s' (off + n)) : StmtPost code sc below fd sd n off σ (s', .normal) := h
+theorem Reach.finish {W : World} {sc : Scope} {below : List CtxState} {σ : Vm} {s' : St} {fd sd n off : Nat}
+    (h : Reach W sc below σ s' (off + n)) : StmtPost W sc below fd sd n off σ (s', .normal) := h
 
 /-- reaching the start address again: what the statement does from there is what it does from here -/
-theorem Reach.again {code : Code} {sc : Scope} {below : List CtxState} {σ : Vm} {s' : St} {fd sd n off : Nat}
-    {r : St × Outcome} (h : Reach code sc below σ s' off)
-    (hl : ∀ τ : Vm, τ.pc = off → Rel sc [] below s' τ → SameStacks σ τ → StmtPost code sc below fd sd n off τ r) :
-    StmtPost code sc below fd sd n off σ r := by
+theorem Reach.again {W : World} {sc : Scope} {below : List CtxState} {σ : Vm} {s' : St} {fd sd n off : Nat}
+    {r : St × Outcome} (h : Reach W sc below σ s' off)
+    (hl : ∀ τ : Vm, τ.pc = off → Rel W sc [] below s' τ → SameStacks σ τ → StmtPost W sc below fd sd n off τ r) :
+    StmtPost W sc below fd sd n off σ r := by
   obtain ⟨τ, st, hp, hr, hss⟩ := h
   exact StmtPost.of_steps st hss (hl τ hp hr hss)
 
@@ -128,20 +128,20 @@ open SimDo
 theorem case_while (W : World) (fuel : Nat) (ih : IHle W fuel) (c : Proc.Expr) (body : SStmt) (p : Pos)
     (sc : Scope) (sfx : String) (fd sd off : Nat) (below : List CtxState) (s : St) (σ : Vm)
     (hc : CodeAt W.code off (compileStmt W.lay sfx fd sd off (.while c body p))) (hpc : σ.pc = off)
-    (hr : Rel sc [] below s σ) (hw : Wf W.sg sc (.while c body p)) (ha : ActInv sc fd sd σ) :
-    StmtPost W.code sc below fd sd (sizeStmt fd sd (.while c body p)) off σ
+    (hr : Rel W sc [] below s σ) (hw : Wf W.sg sc (.while c body p)) (ha : ActInv sc fd sd σ) :
+    StmtPost W sc below fd sd (sizeStmt fd sd (.while c body p)) off σ
       (Proc.Ref.exec W.P (fuel + 1) (desugar (.while c body p)) s) := by
   have hw0 := hw
   simp only [Wf] at hw
   obtain ⟨hwc, hnc, hwb⟩ := hw
   -- going round the loop again
-  have hloop : ∀ (s' : St) (τ : Vm), τ.pc = off → Rel sc [] below s' τ → SameStacks σ τ →
-      StmtPost W.code sc below fd sd (sizeStmt fd sd (.while c body p)) off τ
+  have hloop : ∀ (s' : St) (τ : Vm), τ.pc = off → Rel W sc [] below s' τ → SameStacks σ τ →
+      StmtPost W sc below fd sd (sizeStmt fd sd (.while c body p)) off τ
         (Proc.Ref.exec W.P fuel (Proc.Stmt.while c (desugar body) p) s') := by
     intro s' τ hp hr' hss
     have := ih.self.stmt sc (.while c body p) sfx fd sd off below s' τ hc hp hr' hw0 (ha.of_same hss)
     simpa only [desugar] using this
-  have h0 : Reach W.code sc below σ s off := by rw [← hpc]; exact Reach.start hr
+  have h0 : Reach W sc below σ s off := by rw [← hpc]; exact Reach.start hr
   simp only [compileStmt] at hc
   have hlab : W.code[off]? = some (CInstr.label (labelName "while" p sfx), p) :=
     hc.append_left.append_left.append_left.append_left.head
@@ -195,20 +195,20 @@ theorem case_while (W : World) (fuel : Nat) (ih : IHle W fuel) (c : Proc.Expr) (
 theorem case_do (W : World) (fuel : Nat) (ih : IHle W fuel) (c : Proc.Expr) (top until_ : Bool) (body : SStmt) (p : Pos)
     (sc : Scope) (sfx : String) (fd sd off : Nat) (below : List CtxState) (s : St) (σ : Vm)
     (hc : CodeAt W.code off (compileStmt W.lay sfx fd sd off (.doLoop c top until_ body p))) (hpc : σ.pc = off)
-    (hr : Rel sc [] below s σ) (hw : Wf W.sg sc (.doLoop c top until_ body p)) (ha : ActInv sc fd sd σ) :
-    StmtPost W.code sc below fd sd (sizeStmt fd sd (.doLoop c top until_ body p)) off σ
+    (hr : Rel W sc [] below s σ) (hw : Wf W.sg sc (.doLoop c top until_ body p)) (ha : ActInv sc fd sd σ) :
+    StmtPost W sc below fd sd (sizeStmt fd sd (.doLoop c top until_ body p)) off σ
       (Proc.Ref.exec W.P (fuel + 1) (desugar (.doLoop c top until_ body p)) s) := by
   have hw0 := hw
   simp only [Wf] at hw
   obtain ⟨hwc, hnc, hwb⟩ := hw
   -- going round the loop again
-  have hloop : ∀ (s' : St) (τ : Vm), τ.pc = off → Rel sc [] below s' τ → SameStacks σ τ →
-      StmtPost W.code sc below fd sd (sizeStmt fd sd (.doLoop c top until_ body p)) off τ
+  have hloop : ∀ (s' : St) (τ : Vm), τ.pc = off → Rel W sc [] below s' τ → SameStacks σ τ →
+      StmtPost W sc below fd sd (sizeStmt fd sd (.doLoop c top until_ body p)) off τ
         (Proc.Ref.exec W.P fuel (Proc.Stmt.doLoop c top until_ (desugar body) p) s') := by
     intro s' τ hp hr' hss
     have := ih.self.stmt sc (.doLoop c top until_ body p) sfx fd sd off below s' τ hc hp hr' hw0 (ha.of_same hss)
     simpa only [desugar] using this
-  have h0 : Reach W.code sc below σ s off := by rw [← hpc]; exact Reach.start hr
+  have h0 : Reach W sc below σ s off := by rw [← hpc]; exact Reach.start hr
   cases top with
   | true =>
     cases until_ with
